@@ -222,7 +222,7 @@ static void run_pyframe(Ctx &c, int fr) {
   c.logf("python client frame (mpt.py %s)", fr == FCommand ? "encode_command" : "encode_cobs");
   c.loghex("message", msg.data(), msg.size());
   c.label("python-client");
-  if (frame.empty()) return;
+  VP_CHECK(c, !frame.empty(), "python-client-no-frame", "the client wrote nothing for a message of %zu bytes", msg.size());
   check_frame(c, fr, frame, msg);
   decode_lib(c, fr, frame, msg);
   if (fr == FCommand) { c.label("python-client:command"); if (msg.size() > 1) c.nontrivial(); return; }
